@@ -19,8 +19,9 @@ TRUSTED_BASE = [
     "axioms: as printed by Print Assumptions under each theorem of coq/Props/<id>.v (copied below as 'axioms')",
     "extraction: Coq Extraction with ExtrOcamlBasic and ExtrOcamlNativeString (their Extract Inductive/Constant directives for bool, option, unit, list, prod, sumbool, string, ascii); no Extract Constant of our own",
     "driver/main.ml: binary64 NumOps record with Python int/float semantics (libm exp/log), wire syntax, dispatch",
-    "xlate/pyxlate.py: translation of the decision expressions of /repo's source into Gallina (coq/Gen, regenerated and tied to the model on every run)",
-    "IEEE binary64 comparisons satisfy NumLaws: proved for Coq primitive floats in coq/Base/NumF.v (depends on the standard library's FloatAxioms and the Reals/classical axioms Flocq uses; no property theorem imports it)",
+    "xlate/pyxlate.py: translation of the decision and arithmetic expressions of /repo's source into Gallina (coq/Gen, regenerated and tied to the model on every run)",
+    "IEEE binary64 comparisons satisfy NumLaws: proved for Coq primitive floats in coq/Base/NumF.v (depends on the standard library's FloatAxioms and the Reals/classical axioms Flocq uses; imported only by the binary64 refutation theorems of coq/Props/C11.v)",
+    "standard-library axioms used by the exact-real-arithmetic theorems (coq/Base/NumR.v, Props C13 and C07 *_R theorems): ClassicalDedekindReals.sig_not_dec, sig_forall_dec, FunctionalExtensionality.functional_extensionality_dep, Classical_Prop.classic; by the binary64 theorems (Props C11 *_F): the same plus the primitive float / 63-bit integer types and operations and FloatAxioms' specifications; all other theorems are closed under the global context",
     "harness/*.py: generators, canonicalisation, comparison, classification of findings",
     "coq/Spec/*.v: the transcription of the Demes data-model rules and ms semantics that the theorems are stated against",
     "modelled, not verified: CPython 3.12 (attrs, dict order, stable sort, deepcopy), ruamel.yaml, json, argparse, str<->float conversion, libm",
@@ -91,9 +92,16 @@ def prop_theorems(pid):
     text = open(path).read()
     names = re.findall(r"^\s*Theorem\s+(\w+)", text, flags=re.M)
     rc, out, dt = sh("coqc -Q . Demes Props/%s.v" % pid, 900, COQ)
-    axioms = sorted(set(l.strip() for l in out.splitlines()
-                        if l.strip() and not l.startswith("Closed under")
-                        and re.match(r"^[A-Za-z_][\w.]*\s*:", l.strip())))
+    # Print Assumptions prints either "Closed under the global context" or "Axioms:" followed by entries "name : type";
+    # a long entry puts the name on a line of its own and continues, indented, with ": type"
+    axioms = set()
+    for l in out.splitlines():
+        if not l or l[0].isspace() or l.startswith("Closed under") or l.startswith("Axioms:") or l.startswith("File "):
+            continue
+        m = re.match(r"^([A-Za-z_][\w.']*)(\s*:.*)?$", l)
+        if m:
+            axioms.add(m.group(1))
+    axioms = sorted(axioms)
     closed = out.count("Closed under the global context")
     return names, axioms, closed, rc == 0, out[-2000:]
 
@@ -146,13 +154,13 @@ class Check:
         if e is not None:
             self.known_hits[signature] = self.known_hits.get(signature, 0) + 1
             return
-        if len(self.violations) < 20:
+        if sum(1 for v in self.violations if not v[3]) < 20:
             self.violations.append((signature, what, replay, False))
 
     def unproven(self, signature, what, replay):
         """A proof obligation or the model/implementation correspondence broke and
         no failing input of the property itself was found."""
-        if len(self.violations) < 20:
+        if sum(1 for v in self.violations if v[3]) < 20:
             self.violations.append((signature, what, replay, True))
 
     def finish(self, level, obligations=None, discharged=None, axioms=None, rule="", explanation="",
